@@ -358,6 +358,10 @@ def continuation(m, refs, names, U, c):
 class FaultBdd(BddMachine):
     """Valid histories of dd.bdd; faults are injected in `invariant` of every state."""
 
+    def step_invariant(self, st):
+        # replay: the queries of the plain invariant, not the fault injection (done on copies)
+        BddMachine.step_invariant(self, st)
+
     def __init__(self, *a, reordering=None, forced=(), light=False, **kw):
         super().__init__(*a, **kw)
         # the broken files mention x, y, z: a failing load may have declared them already
